@@ -531,7 +531,7 @@ def compile_mem_sequence(seq):
     return " ".join(code)
 
 
-def f_mem_shared_values(deltas=(0, 1, 31, 32), tail=(None, "MLOAD", "KECCAK256")):
+def f_mem_shared_values(deltas=(0, 1, 31, 32), tail=(None, "MLOAD", "KECCAK256"), head=(None,)):
     """two stores of the *same* value (same input, same constant, or the address variable itself) to equal, overlapping
     or unrelated places, optionally followed by a load / hash that observes the result: the order of two stores of one
     value still matters in memory when their byte ranges overlap without coinciding"""
@@ -544,10 +544,15 @@ def f_mem_shared_values(deltas=(0, 1, 31, 32), tail=(None, "MLOAD", "KECCAK256")
                     for a2 in atoms:
                         for val in (0, ("c", 0), ("c", 0xff01), ("in", 0)):
                             for t in loads:
-                                seq = [(o1, a1, val), (o2, a2, val)]
-                                if t is not None:
-                                    seq.append((t, a1 if isinstance(a1, int) else a2, 0))
-                                out.append(compile_mem_sequence(seq))
+                                for hd in head:
+                                    if hd is not None and (hd == "SLOAD") != (o1 == "SSTORE"):
+                                        continue
+                                    for ha in ((a1, a2) if hd is not None else (None,)):
+                                        # a load *before* the two stores of one value: it must stay before both of them
+                                        seq = ([(hd, ha, 0)] if hd is not None else []) + [(o1, a1, val), (o2, a2, val)]
+                                        if t is not None:
+                                            seq.append((t, a1 if isinstance(a1, int) else a2, 0))
+                                        out.append(compile_mem_sequence(seq))
     return list(dict.fromkeys(out))
 
 
